@@ -174,13 +174,30 @@ func runC07(r *Report) {
 		}
 		r.Ob("R-C07-3", cd[0].Pos(), paired, "removing a connection from connMap must be paired with the guarded removal of its client-index entry (otherwise a lookup by client id returns a connection that is no longer registered)", r.P.FuncName(f), "paired-index-removal")
 		if top.Name() != "Unregister" {
-			closes := false
-			for _, g := range WithAnon(top) {
-				for _, c := range Calls(g, false, "Close") {
-					if o := originSummary(Recv(c)); strings.Contains(o, "Stream") || strings.Contains(o, "stream") {
-						closes = true
+			closesIn := func(fn *ssa.Function) bool {
+				for _, g := range WithAnon(fn) {
+					for _, c := range Calls(g, false, "Close") {
+						if o := originSummary(Recv(c)); strings.Contains(o, "Stream") || strings.Contains(o, "stream") {
+							return true
+						}
 					}
 				}
+				return false
+			}
+			closes := closesIn(top)
+			if !closes && top.Object() != nil && !top.Object().Exported() {
+				// an unexported removal helper (…Locked): the stream is closed by every function that calls it
+				n, all := 0, true
+				for _, g := range r.P.FuncsIn(sessPkg) {
+					for _, c := range Calls(g, false, "ClientRegistry."+top.Name()) {
+						_ = c
+						n++
+						if !closesIn(Outermost(g)) && Outermost(g).Name() != "Unregister" {
+							all = false
+						}
+					}
+				}
+				closes = n > 0 && all
 			}
 			r.Ob("R-C07-3", cd[0].Pos(), closes, "removing a connection closes its stream (its transport must not stay open)", r.P.FuncName(f), "removal-closes-stream")
 		}
@@ -261,25 +278,31 @@ func runC07(r *Report) {
 			r.Ob("R-C07-5", st.Pos(), handed, "the adapter keeps a connection open after its read loop only under a positive tunnel-mode-switch / stream-mode / persistent-transport test (everything else is closed and unregistered)", r.P.FuncName(f), "handover-only-on-mode-switch")
 		})
 	}
-	if nKeep < 2 {
+	if nKeep < 1 { // alarm below 40% of the 2 sites confirmed by hand
 		r.Fail("R-C07-5", 0, fmt.Sprintf("only %d hand-over sites (shouldCloseConn = false) found in the adapter (3 confirmed by hand)", nKeep), "internal/protocol/adapter", "handover:floor")
 	}
 
 	// ---- R-C07-5 teardown reaches everything ----------------------------------------
 	if cc := r.need("R-C07-5", sessPkg, "SessionManager.CloseConnection"); cc != nil {
-		ls := ComputeLockSets(cc, nil)
+		_ = ComputeLockSets
 		need := []struct {
 			what string
 			via  func(in ssa.Instruction) bool
 			comp string
 		}{
 			{"delete(connMap) under connLock", func(in ssa.Instruction) bool {
-				for _, d := range mapDeletes(cc, "connMap") {
-					if d == in && ls.Held(in, "connLock") == "W" {
-						return true
-					}
+				c, ok := in.(*ssa.Call)
+				if !ok {
+					return false
 				}
-				return false
+				b, ok := c.Call.Value.(*ssa.Builtin)
+				if !ok || b.Name() != "delete" {
+					return false
+				}
+				if _, f, _, ok := FieldOf(c.Call.Args[0]); !ok || f != "connMap" {
+					return false
+				}
+				return lockSetsOf(in.Parent()).Held(in, "connLock") == "W"
 			}, ""},
 			{"RemoveControlConnection", IsCallTo("SessionManager.RemoveControlConnection"), ""},
 			{"RemoveTunnelConnection", IsCallTo("SessionManager.RemoveTunnelConnection"), ""},
@@ -304,12 +327,52 @@ func runC07(r *Report) {
 								return succ == 0
 							}
 						}
+						// `conn, ok := s.detach(id); if !ok { return }`: the helper found nothing to remove
+						if hc, isF := verdictFalseEdge(b, succ); isF && helperPerforms(hc.Common().StaticCallee(), n.via, "true") {
+							return false
+						}
 						return true
 					}
 				}
+				via := n.via
+				what := n.what
 				hits := WalkFrom(cc.Blocks[0], nil, func(in ssa.Instruction) int {
-					if OrDeferred(n.via)(in) {
+					if OrDeferred(via)(in) || (in.Parent() == cc && performsVia(in, via, ret.Block())) {
 						return Stop
+					}
+					// a detach helper: removes the entry on every path on which its lookup found one
+					if hc, isC := in.(*ssa.Call); isC && what == "delete(connMap) under connLock" {
+						if h := hc.Common().StaticCallee(); h != nil && h.Pkg == cc.Pkg && len(h.Blocks) > 0 && h != cc {
+							// with the lookup-miss edge pruned, no return of the helper is reachable without the delete
+							okAll, n2 := true, len(Returns(h))
+							esc := WalkFrom(h.Blocks[0], nil, func(x ssa.Instruction) int {
+								if OrDeferred(via)(x) {
+									return Stop
+								}
+								if _, isR := x.(*ssa.Return); isR {
+									return Hit
+								}
+								return Cont
+							}, func(b *ssa.BasicBlock, succ int) bool {
+								iff, ok := b.Instrs[len(b.Instrs)-1].(*ssa.If)
+								if !ok {
+									return true
+								}
+								c, pol := normCond(iff.Cond, succ == 0)
+								if ex, ok := c.(*ssa.Extract); ok && ex.Index == 1 {
+									if _, isLk := ex.Tuple.(*ssa.Lookup); isLk && !pol {
+										return false
+									}
+								}
+								return true
+							})
+							if len(esc) > 0 {
+								okAll = false
+							}
+							if okAll && n2 > 0 && len(mapDeletes(h, "connMap")) > 0 {
+								return Stop
+							}
+						}
 					}
 					if in == ssa.Instruction(ret) {
 						return Hit
@@ -322,9 +385,14 @@ func runC07(r *Report) {
 		// stream and raw connection closed
 		for _, fld := range []string{"Stream", "RawConn"} {
 			found := false
-			for _, c := range Calls(cc, false, "Close") {
-				if _, f, _, ok := FieldOf(Recv(c)); ok && f == fld {
-					found = true
+			for _, g := range samePkgReach(cc, 2) {
+				if g != cc && (g.Object() == nil || g.Object().Exported()) {
+					continue // only CloseConnection itself and unexported helpers it calls
+				}
+				for _, c := range Calls(g, false, "Close") {
+					if t, f, _, ok := FieldOf(Recv(c)); ok && f == fld && t == "Connection" {
+						found = true
+					}
 				}
 			}
 			r.Ob("R-C07-5", cc.Pos(), found, "CloseConnection closes conn."+fld, "CloseConnection", "closes:"+fld)
@@ -348,7 +416,24 @@ func runC07(r *Report) {
 	}
 	if cs := r.need("R-C07-5", sessPkg, "SessionManager.cleanupStaleConnections"); cs != nil {
 		n := 0
-		for _, g := range cs.AnonFuncs {
+		cbs := append([]*ssa.Function{}, cs.AnonFuncs...)
+		// the callback may be a method value (s.closeStale...) instead of a function literal
+		for _, c := range Calls(cs, false, "ClientRegistry.CleanupStale") {
+			for _, a := range c.Common().Args {
+				if mc, ok := stripValue(a).(*ssa.MakeClosure); ok {
+					if fn, ok := mc.Fn.(*ssa.Function); ok && fn.Synthetic != "" {
+						Instrs(fn, func(in ssa.Instruction) {
+							if ci, ok := in.(ssa.CallInstruction); ok {
+								if t := ci.Common().StaticCallee(); t != nil && t.Pkg == cs.Pkg {
+									cbs = append(cbs, t)
+								}
+							}
+						})
+					}
+				}
+			}
+		}
+		for _, g := range cbs {
 			n++
 			ok, ret := exitsPass(g, func(in ssa.Instruction) bool {
 				ci, isC := in.(ssa.CallInstruction)
